@@ -2432,9 +2432,9 @@ def bi_artifact_resolve(case, obs):
 
 def bi_name_id_mapping_response(case, obs):
     a = case["a"]
-    return "(BNameIDMappingResponse %s %s %s %s %s)" % (
+    return "(BNameIDMappingResponse %s %s %s %s %s %s)" % (
         cq_str(world.IDP_ID), cq_otree(inst_tree(mk_name_id(a.get("name_id")))), cq_ostr(a.get("in_response_to")),
-        cq_signing(True if a.get("sign") else False, False), cq_observed(obs["tree"]))
+        _statusv(a.get("status")), cq_signing(True if a.get("sign") else False, False), cq_observed(obs["tree"]))
 
 
 MODELLED = {
